@@ -250,7 +250,7 @@ def monopole(ctx):
                 copies.append(c)
                 return c
             return list(x) if isinstance(x, (list, tuple)) else x
-        attrs = {'lineindex': line, 'rcell': RC(), 'shift': SH, 'dislsol': Sol(), 'set_shift': lambda *a, **k: log.append(('set_shift', _sargs(a, k))), 'set_systems': lambda b, d: log.append(('set_systems', b, d)),
+        attrs = {'lineindex': line, 'rcell': RC(), 'shift': SH, 'dislsol': Sol(), 'set_shift': lambda *a, **k: log.append(('set_shift', _sargs(a, k))), 'set_systems': lambda base_system=None, disl_system=None: log.append(('set_systems', base_system, disl_system)),
                  'box_boundary': lambda box, w: (log.append(('box_boundary', box, w)) or Shape()), 'cylinder_boundary': lambda box, w: (log.append(('cylinder_boundary', box, w)) or Shape()),
                  'ucell': None}
         attrs.update(extra)
@@ -449,6 +449,22 @@ def array(ctx):
             return trimmed
     trimmed = Sysm(log, 'trimmed', P.copy())
     base.atoms_ix = Ix()
+
+    class AtB(PyStub):
+        # the reference atoms: indexing them by the kept ids is the same reduction as the system's atom indexer
+        pos = base.atoms.pos
+        atype = base.atoms.atype
+
+        def __getitem__(self, ids):
+            log.append(('trim', ids))
+            return trimmed.atoms
+    base.atoms = AtB()
+
+    def mkSystem(**kw):
+        # the indexer written out: a System of the reduced atoms with the reference system's own box, periodicity and symbols is the trimmed reference system
+        if kw.get('atoms') is trimmed.atoms and kw.get('box') == base.box and kw.get('symbols') == base.symbols and kw.get('pbc') == base.pbc:
+            return trimmed
+        raise Opaque('System(%s) on the model' % sorted(kw))
     disl = Sysm(log, 'disl', P.copy())
     disl.atoms.old_id = 'OLD_ID'
 
@@ -467,11 +483,12 @@ def array(ctx):
 
         def inside(self, pos):
             return np.array([True, False, False])
-    obj = SymObj(None, {'lineindex': 0, 'rcell': RC(), 'shift': SH, 'set_shift': lambda *a, **k: None, 'set_systems': lambda b, d: log.append(('set_systems', b, d)),
+    obj = SymObj(None, {'lineindex': 0, 'rcell': RC(), 'shift': SH, 'set_shift': lambda *a, **k: None, 'set_systems': lambda base_system=None, disl_system=None: log.append(('set_systems', base_system, disl_system)),
                         'build_disl_array': lambda b, c, **k: (log.append(('build', b, np.array(c, dtype=object), k)) or disl), 'array_boundary': lambda box, w: (log.append(('array_boundary', box, w)) or Shape())}, 'self')
     def SymEvalPA():
         e_ = SymEval(aliases)
         e_.np_override = {'numpy.ceil': lambda v: sp.ceiling(v)}
+        e_.globals = {'System': mkSystem}
         return e_
     ev = SymEvalPA()
     try:
